@@ -189,7 +189,8 @@ PROPS["C18"] = {
     "assumptions": ["services shorten their own node's back-off to 1..5 ms through in-package access; the bound checked is then the configured one",
                     "failures in the last 250 ms before the cancel are not judged; a machine whose 1 ms timer fires > 100 ms late makes the time bounds inconclusive (the at-most-one-instance invariant is still judged)",
                     "interleavings inside the supervisor are sampled, not enumerated"],
-    "units": [U("TestVerif_C18_Trees", "./pkg/supervisor", R(48, shards=8, shrinktime="30s", timeout=900), R(640, shards=16, shrinktime="60s", timeout=1500), race=True, crash_is_violation=True, replay_tries=6)],
+    "units": [U("TestVerif_C18_Trees", "./pkg/supervisor", R(48, shards=8, shrinktime="30s", timeout=900), R(640, shards=16, shrinktime="60s", timeout=1500), race=True, crash_is_violation=True, replay_tries=6,
+                wallclock_fps=["C18/failed-service-not-restarted", "C18/group-sibling-not-cancelled", "C18/not-stopped-by-cancel"])],
 }
 
 PROPS["C20"] = {
@@ -199,7 +200,8 @@ PROPS["C20"] = {
     "assumptions": ["consecutive duplicate deliveries caused by duplicate filters are collapsed (the statement does not forbid them)",
                     "the gRPC transport is replaced by in-process fake streams whose Send honours the stream context",
                     "known finding C20/blocked-behind-unread-subscriber is excluded by construction: a third unread VAA for a subscriber that stopped reading is not published while the finding is listed"],
-    "units": [U("TestVerif_C20_Spy", "./cmd/spy", R(600, shards=4, timeout=900), R(20000, shards=16, timeout=1500), race=True, replay_tries=3)],
+    "units": [U("TestVerif_C20_Spy", "./cmd/spy", R(600, shards=4, timeout=900), R(20000, shards=16, timeout=1500), race=True, replay_tries=3,
+                wallclock_fps=["C20/operation-blocked", "C20/not-delivered"])],
 }
 
 EX = "explorer-backend"
